@@ -40,7 +40,7 @@ inline std::string mutate(sim_rng *r, const std::string &in) {
     for (int k = 0; k < n; k++) {
         size_t at = s.rfind('@');
         size_t dom_lo = at == std::string::npos ? 0 : at + 1;
-        unsigned op = (unsigned)sim_below(r, 17);
+        unsigned op = (unsigned)sim_below(r, 18);
         switch (op) {
         case 0: case 1: case 2: {           // insert a token anywhere
             const std::string &t = T[sim_below(r, T.size())];
@@ -91,6 +91,13 @@ inline std::string mutate(sim_rng *r, const std::string &in) {
         } else s += T[sim_below(r, T.size())]; break;                 // append
         case 13: s = T[sim_below(r, T.size())] + s; break;              // prepend
         case 14: if (at != std::string::npos) s += ".";  break;        // rooted
+        case 16: {                          // one label repeated many times (names of very many short labels)
+            std::vector<size_t> cuts; cuts.push_back(dom_lo); for (size_t i = dom_lo; i < s.size(); i++) if (s[i] == '.') cuts.push_back(i + 1);
+            size_t k = sim_below(r, cuts.size()); size_t lo = cuts[k], hi = k + 1 < cuts.size() ? cuts[k + 1] - 1 : s.size();
+            std::string lab = s.substr(lo, hi - lo); if (lab.empty() || lab.size() > 20) lab = "\xd1\x8f";
+            size_t reps = 2 + sim_below(r, 40); std::string run; for (size_t i = 0; i < reps; i++) { run += lab; run += "."; }
+            s.insert(lo, run);
+        } break;
         case 15: {                          // one label, or the whole domain, replaced by code points that IDNA mapping deletes
             static const char *ign[] = { "\xc2\xad", "\xe2\x80\x8b", "\xef\xb8\x8f", "\xe2\x81\xa0" };
             std::string g; int reps = 1 + (int)sim_below(r, 3); for (int i = 0; i < reps; i++) g += ign[sim_below(r, 4)];
